@@ -137,8 +137,10 @@ func runProps(ids []string, tier string) int {
 	for _, id := range ids {
 		p := propByID(id)
 		r := newRep(c, id)
-		t0 := start
-		start = time.Now()
+		t0 := time.Now()
+		if len(ids) == 1 {
+			t0 = start // a single-property run pays for the load
+		}
 		func() {
 			defer func() {
 				if e := recover(); e != nil {
